@@ -352,31 +352,36 @@ class VectorContainer:
         """Convert a slice into a 3-tuple of indexing information to use with `self.span`."""
         start, stop, step = index.start, index.stop, index.step
 
-        if start is None:
-            start = self.__dict__['span'][0]
-        if stop is None:
-            stop = self.__dict__['span'][-1]
         if step is None:
             step = 1
 
-        start_location = self._locate_period_in_span(start)
-
-        # Adjust for a slice as a return value e.g. from a year ('2000') in a
-        # quarterly `pandas` `PeriodIndex` ('1999Q1':'2001Q4')
-        if isinstance(start_location, slice):
-            start_location = start_location.start
-
-        stop_location = self._locate_period_in_span(stop)
-
-        # Adjust for a slice (as with `start_location`)
-        if isinstance(stop_location, slice):
-            stop_location = stop_location.stop
+        # An open end means the corresponding end of the span: take it by
+        # position (rather than by looking up the first/last label) so that
+        # repeated labels in `span` can't cut the selection short
+        if start is None:
+            start_location = 0
         else:
-            # Only extend the limit for a regular index (`pandas`, for example,
-            # already adjusts for this in its own API)
-            # TODO: Check how generally this treatment applies i.e. beyond
-            #       `pandas`
-            stop_location += 1
+            start_location = self._locate_period_in_span(start)
+
+            # Adjust for a slice as a return value e.g. from a year ('2000') in
+            # a quarterly `pandas` `PeriodIndex` ('1999Q1':'2001Q4')
+            if isinstance(start_location, slice):
+                start_location = start_location.start
+
+        if stop is None:
+            stop_location = len(self.__dict__['span'])
+        else:
+            stop_location = self._locate_period_in_span(stop)
+
+            # Adjust for a slice (as with `start_location`)
+            if isinstance(stop_location, slice):
+                stop_location = stop_location.stop
+            else:
+                # Only extend the limit for a regular index (`pandas`, for
+                # example, already adjusts for this in its own API)
+                # TODO: Check how generally this treatment applies i.e. beyond
+                #       `pandas`
+                stop_location += 1
 
         return start_location, stop_location, step
 
